@@ -48,6 +48,7 @@ type quota struct {
 	mutex             sync.RWMutex
 	clock             clock.Clock
 	allowedByReqID    map[string]bool
+	chargedByReqID    map[string]int64 // what Inc counted for a request that is still pending
 	extractCountF     ExtractInt64F
 }
 
@@ -74,6 +75,7 @@ func newQuota(
 		logger:            logger.With().Str("component", "quota").Str("key", key).Logger(),
 		context:           context.WithClock(clock),
 		allowedByReqID:    make(map[string]bool),
+		chargedByReqID:    make(map[string]int64),
 		extractCountF:     extractCountF,
 		mutex:             sync.RWMutex{},
 		clock:             clock,
@@ -158,6 +160,7 @@ func (q *quota) Inc(APIStream publicTypes.APIStreamI) incResult {
 			q.logger.Trace().Err(err).Msg("Failed to increment window")
 		} else {
 			q.allowedByReqID[reqID] = true
+			q.chargedByReqID[reqID] = incrBy
 		}
 		q.storeCountIntoContext(currentCount, q.currentCountKey)
 	}
@@ -177,12 +180,14 @@ func (q *quota) refund(APIStream publicTypes.APIStreamI) {
 		return
 	}
 	q.allowedByReqID[reqID] = false
-	if err := q.context.AtomicDecr(q.currentCountKey); err != nil {
+	charged := q.chargedByReqID[reqID]
+	delete(q.chargedByReqID, reqID)
+	if err := q.context.AtomicDecrBy(q.currentCountKey, charged); err != nil {
 		q.logger.Warn().Err(err).Msg("Failed to give back quota count")
 		return
 	}
-	if shownCount := q.getCountFromContext(q.currentCountKey); shownCount > 0 {
-		q.storeCountIntoContext(shownCount-1, q.currentCountKey)
+	if shownCount := q.getCountFromContext(q.currentCountKey); shownCount >= charged {
+		q.storeCountIntoContext(shownCount-charged, q.currentCountKey)
 	}
 }
 
@@ -191,6 +196,7 @@ func (q *quota) Dec(APIStream publicTypes.APIStreamI) {
 	defer q.mutex.Unlock()
 	reqID := APIStream.GetID()
 	delete(q.allowedByReqID, reqID)
+	delete(q.chargedByReqID, reqID)
 }
 
 func (q *quota) Allowed(APIStream publicTypes.APIStreamI) bool {
@@ -203,6 +209,7 @@ func (q *quota) Allowed(APIStream publicTypes.APIStreamI) bool {
 	}
 
 	delete(q.allowedByReqID, reqID)
+	delete(q.chargedByReqID, reqID)
 	return value
 }
 
@@ -234,6 +241,7 @@ func (q *quota) storeCountIntoContext(count int64, key string) {
 func (q *quota) onWindowRestart() {
 	// We don't need to lock here as we are already in a mutex lock
 	q.allowedByReqID = make(map[string]bool)
+	q.chargedByReqID = make(map[string]int64)
 }
 
 type fixedWindow struct {
